@@ -14,7 +14,7 @@ package parser
 //@   props C06
 //@   requires LexInv(l)
 //@   ensures [inv] LexInv(l)
-//@   ensures [step] old(l.pos) < len(l.input) ==> l.pos == old(l.pos) + width(l.input, old(l.pos)) && l.column == old(l.column) + 1
+//@   ensures [step] old(l.pos) < len(l.input) ==> l.pos == old(l.pos) + width(l.input, old(l.pos))
 //@   ensures [stay] old(l.pos) >= len(l.input) ==> l.pos == old(l.pos) && l.column == old(l.column)
 //@   ensures [C08:col16] old(l.pos) < len(l.input) ==> l.column == old(l.column) + u16w(rune(l.input, old(l.pos)))
 //@   ensures [frame] l.input == old(l.input) && l.line == old(l.line) && l.atStart == old(l.atStart)
